@@ -1211,20 +1211,30 @@ func init() {
 			}
 			n := 0
 			for _, fn := range c.AllFuncs {
-				if core.RelPkg(fn) != "internal/workers" || fn.Parent() != nil {
+				if core.RelPkg(fn) != "internal/workers" {
 					continue
 				}
-				// the stop function of a pool with a pending counter: it sets the pool's stop flag and reaches a supersede
-				setsStop := false
-				for _, op := range an.AtomicOps([]*ssa.Function{fn}) {
-					if op.Op == "Store" && an.IsNamed(op.Field.Type(), "sync/atomic", "Bool") {
-						if k, isK := op.Call.Common().Args[1].(*ssa.Const); isK && k.Value != nil && k.Value.String() == "true" {
-							setsStop = true
+				// the stop function of a pool with a pending counter, by role: the function that asks for the pending work to be
+				// superseded by nothing — it hands the constant 0 to the supersede (directly or through the sending helper)
+				isSet := func(_ ssa.CallInstruction, t *ssa.Function) bool { return t != nil && pf.setFns[t] }
+				asksZero := false
+				for _, e := range an.FlatCalls(fn, flatDepth, isSet) {
+					root, isCall := e.Root().(ssa.CallInstruction)
+					if !isCall || root.Parent() != fn {
+						continue
+					}
+					// the limit path also empties the counter, on purpose without accounting (C02.R5): a supersede whose
+					// result is thrown away is that one, not the stop
+					if rv, isV := root.(ssa.Value); isV && pf.setFns[an.Callee(root)] && len(an.Referrers(rv)) == 0 {
+						continue
+					}
+					for _, a := range root.Common().Args {
+						if k, isK := a.(*ssa.Const); isK && k.Value != nil && isIntType(k.Type()) && k.Int64() == 0 {
+							asksZero = true
 						}
 					}
 				}
-				isSet := func(_ ssa.CallInstruction, t *ssa.Function) bool { return t != nil && pf.setFns[t] }
-				if !setsStop || len(an.FlatCalls(fn, flatDepth, isSet)) == 0 {
+				if !asksZero {
 					continue
 				}
 				n++
